@@ -24,6 +24,14 @@ import (
 var Root = "/verif"
 var Out = ""
 
+// ScratchDir is where monitors may put short-lived files (child-process output): under bin/,
+// which is git-ignored, never under /tmp.
+func ScratchDir() string {
+	d := filepath.Join(outDir(), "bin", "scratch")
+	_ = os.MkdirAll(d, 0o755)
+	return d
+}
+
 func outDir() string {
 	if Out != "" {
 		return Out
@@ -476,10 +484,18 @@ func Parallel(workers, n int, fn func(w, i int)) {
 	var wg sync.WaitGroup
 	var pmu sync.Mutex
 	var firstPanic interface{}
+	// all workers are released together, so that first-use (lazy initialisation) code in the
+	// library is entered by several goroutines at the same instant
+	var start int32 // spin barrier: a channel close wakes the workers one after another, microseconds apart
+	var ready sync.WaitGroup
+	ready.Add(workers)
 	for w := 0; w < workers; w++ {
 		wg.Add(1)
 		go func(w int) {
 			defer wg.Done()
+			ready.Done()
+			for atomic.LoadInt32(&start) == 0 {
+			}
 			defer func() {
 				if e := recover(); e != nil {
 					pmu.Lock()
@@ -499,6 +515,8 @@ func Parallel(workers, n int, fn func(w, i int)) {
 			}
 		}(w)
 	}
+	ready.Wait()
+	atomic.StoreInt32(&start, 1)
 	wg.Wait()
 	if firstPanic != nil {
 		panic(firstPanic)
